@@ -2799,6 +2799,11 @@ class PartitionsFiltered(Expr):
         else:
             return range(self.npartitions)
 
+    @property
+    def _is_length_preserving(self):
+        # A selection of output partitions has fewer rows than the input
+        return super()._is_length_preserving and not self._filtered
+
     @functools.cached_property
     def divisions(self):
         # Common case: Use self._divisions()
